@@ -482,6 +482,49 @@ func storedOrZero(a *Analysis, st *CNF, x *Term) bool {
 	return ok
 }
 
+// storedPlusD: v is "the integer stored under key (nil key: any read), plus d",
+// with an absent entry standing for 0 — spelled either as base + d with the
+// variable base ∈ {0, read}, or as the variable v ∈ {d, read + d}; in both
+// spellings the state must know that the read value is taken exactly when the
+// read found something.
+func storedPlusD(a *Analysis, st *CNF, v *Term, d int64, key *Term) bool {
+	tb := a.tb
+	readOf := func(t *Term) *Term {
+		rd := t
+		if rd.Op == "toint" && len(rd.Args) == 1 {
+			rd = rd.Args[0]
+		}
+		if rd.Op == "read" && (key == nil || rd.Args[0] == key) {
+			return rd
+		}
+		return nil
+	}
+	variable := func(x *Term, absent int64, shift int64) bool {
+		ok := false
+		for _, alt := range tb.Alts(x) {
+			if n, isC := alt.IntConst(); isC && n == absent {
+				continue
+			}
+			rd := readOf(tb.binop(token.SUB, alt, tb.constInt(shift), intType))
+			if rd == nil {
+				return false
+			}
+			if !a.holdsAt(st, a.litNil(rd), a.eqLit(x, alt)) || !a.holdsAt(st, -a.litNil(rd), a.litEqC(x, absent)) {
+				return false
+			}
+			ok = true
+		}
+		return ok
+	}
+	if base := tb.binop(token.SUB, v, tb.constInt(d), intType); base.Op == "phi" {
+		return variable(base, 0, 0)
+	}
+	if v.Op == "phi" {
+		return variable(v, d, d)
+	}
+	return false
+}
+
 // ssaMayDependOn: may the SSA value v be computed from target? A backward
 // slice that over-approximates data dependence: every operand of an
 // instruction, every value stored into a local (or into an address derived
@@ -649,4 +692,37 @@ func (a *Analysis) eqAxioms(st *CNF, roots ...*Term) [][]int32 {
 		}
 	}
 	return out
+}
+
+// panicOnlyIf: the faults of the root function that are decided by a test
+// mentioning the given term are raised only for the documented reason: the
+// state on every feasible edge into such a panic block entails one of lits
+// (with the axioms). Returns the number of edges examined.
+func panicOnlyIf(a *Analysis, fn *ssa.Function, about *Term, axioms [][]int32, lits ...int32) (int, bool) {
+	tb := a.tb
+	n, ok := 0, true
+	for _, b := range fn.Blocks {
+		if _, isPanic := b.Instrs[len(b.Instrs)-1].(*ssa.Panic); !isPanic {
+			continue
+		}
+		for _, p := range b.Preds {
+			ifi, isIf := p.Instrs[len(p.Instrs)-1].(*ssa.If)
+			if !isIf {
+				continue
+			}
+			ct := tb.Term(tb.root, ifi.Cond)
+			if !ct.contains(func(x *Term) bool { return x == about }) {
+				continue
+			}
+			st := a.edgeState(tb.root, p, b)
+			if st == nil {
+				continue
+			}
+			n++
+			if !a.entails(st, axioms, lits...) {
+				ok = false
+			}
+		}
+	}
+	return n, ok
 }
